@@ -64,6 +64,43 @@ func c02Shapes() []Shape {
 		Pr(Op("+", Call("f", L(0)), Op("*", Call("f", L(1)), Call("f", L(2))))), Def("r", Op("-", Call("f", L(0)), Call("f", L(1)))), Pr(V("r"))))
 	add("swap-simultaneous", Prog(Def("a", L(0)), Def("b", L(1)), SetN([]string{"a", "b"}, V("b"), V("a")), Pr(V("a"), V("b"))))
 	add("multi-assign-exprs", Prog(Def("a", L(0)), Def("b", L(1)), SetN([]string{"a", "b"}, Op("+", V("a"), V("b")), Op("-", V("a"), V("b"))), Pr(V("a"), V("b"))))
+	add("swap-grouped", Prog(Def("a", L(0)), Def("b", L(1)), SetN([]string{"a", "b"}, Paren{X: V("b")}, Paren{X: V("a")}), Pr(V("a"), V("b"))))
+	add("multi-assign-reads-overwritten-target", Prog(Def("n", L(0)), Def("s", S("z")), SetN([]string{"n", "s"}, Op("+", V("n"), N(1)), ItoaE{X: V("n")}), Pr(V("n"), V("s")),
+		SetN([]string{"n", "s"}, Op("*", V("n"), N(2)), Op("+", ItoaE{X: V("n")}, V("s"))), Pr(V("n"), V("s"))))
+	add("rotate-three-mixed-forms", Prog(Def("a", L(0)), Def("b", L(1)), Def("c", L(2)),
+		SetN([]string{"a", "b", "c"}, V("c"), Paren{X: V("a")}, Op("+", V("b"), V("a"))), Pr(V("a"), V("b"), V("c")),
+		SetN([]string{"c", "b", "a"}, Op("-", N(0), V("a")), Op("*", V("c"), N(2)), Paren{X: Op("+", V("b"), V("c"))}), Pr(V("a"), V("b"), V("c"))))
+	add("multi-assign-index-and-element", Prog(Def("q", Ints(L(0), L(1), L(2))), Def("i", N(0)), Def("v", N(0)),
+		SetN([]string{"i", "v"}, Op("+", V("i"), N(1)), Idx("q", V("i"))), Pr(V("i"), V("v")),
+		SetN([]string{"v", "i"}, Idx("q", V("i")), Op("+", V("i"), V("v"))), Pr(V("i"), V("v"))))
+	add("multi-assign-strings", Prog(Def("s", S("ab")), Def("t", S("cd")), Def("k", N(0)),
+		SetN([]string{"s", "t"}, Op("+", V("t"), V("s")), V("s")), Pr(V("s"), V("t")),
+		SetN([]string{"s", "k"}, Substr{S: V("s"), Lo: N(1)}, Len(V("s"))), Pr(V("s"), V("k"))))
+	add("multi-assign-in-function-locals", Prog(
+		Fn("fib", []ParamDecl{Pm("n", TInt)}, []Type{TInt}, Def("lo", N(0)), Def("hi", N(1)),
+			For3(Def("i", N(0)), Op("<", V("i"), V("n")), Inc("i"), SetN([]string{"lo", "hi"}, Paren{X: V("hi")}, Op("+", V("lo"), V("hi")))), Ret(V("lo"))),
+		Pr(Call("fib", N(6)), Call("fib", L(0)))))
+	add("statement-call-with-call-arguments", Prog(
+		Fn("inc", []ParamDecl{Pm("a", TInt)}, []Type{TInt}, Ret(Op("+", V("a"), N(1)))),
+		Fn("name", []ParamDecl{Pm("a", TInt)}, []Type{TString}, Ret(Op("+", S("n"), ItoaE{X: V("a")}))),
+		Fn("show", []ParamDecl{Pm("a", TInt), Pm("s", TString)}, nil, Pr(S("<"), V("a"), V("s"), S(">"))),
+		Do(Call("show", Call("inc", L(0)), Call("name", L(1)))),
+		Do(Call("show", Call("inc", Call("inc", L(0))), Op("+", Call("name", L(1)), S("!")))),
+		Fn("wrap", []ParamDecl{Pm("a", TInt)}, nil, Do(Call("show", Call("inc", V("a")), Call("name", Call("inc", V("a")))))),
+		Do(Call("wrap", L(2)))))
+	add("empty-string-arguments", Prog(
+		Fn("show", []ParamDecl{Pm("a", TString), Pm("b", TString), Pm("c", TInt)}, nil, Pr(S("<"), V("a"), S("|"), V("b"), S("|"), V("c"), S(">"))),
+		Fn("join", []ParamDecl{Pm("a", TString), Pm("b", TString)}, []Type{TString}, Ret(Op("+", Op("+", V("a"), S("-")), V("b")))),
+		Do(Call("show", S(""), S("y"), L(0))), Do(Call("show", S("x"), S(""), L(1))), Do(Call("show", S(""), S(""), N(3))),
+		Pr(Call("join", S(""), S("r")), Call("join", S("l"), S(""))), Def("e", S("")), Do(Call("show", V("e"), Call("join", V("e"), V("e")), N(4)))))
+	add("multi-return-assign-mixed-global-local", Prog(
+		Def("total", L(0)), Def("last", S("none")),
+		Fn("pair", []ParamDecl{Pm("a", TInt)}, []Type{TInt, TInt}, Ret(Op("+", V("a"), N(1)), Op("*", V("a"), N(2)))),
+		Fn("named", []ParamDecl{Pm("a", TInt)}, []Type{TString, TInt}, Ret(Op("+", S("n"), ItoaE{X: V("a")}), V("a"))),
+		Fn("localFirst", []ParamDecl{Pm("p", TInt)}, []Type{TInt}, Def("x", N(0)), SetN([]string{"x", "total"}, Call("pair", V("p"))), Ret(V("x"))),
+		Fn("globalFirst", []ParamDecl{Pm("p", TInt)}, []Type{TInt}, Def("x", N(7)), SetN([]string{"last", "x"}, Call("named", V("p"))), SetN([]string{"total", "p"}, Call("pair", V("x"))), Ret(Op("+", V("x"), V("p")))),
+		Pr(Call("localFirst", L(1)), V("total"), V("last")), Pr(Call("globalFirst", N(5)), V("total"), V("last")),
+		Def("x", N(100)), Def("p", N(200)), Pr(Call("globalFirst", N(6)), V("x"), V("p"), V("total"), V("last"))))
 	add("early-return", Prog(
 		Fn("f", []ParamDecl{Pm("a", TInt)}, []Type{TString}, IfS(Op("<", V("a"), L(1)), Ret(S("small"))), For3(Def("i", N(0)), Op("<", V("i"), N(3)), Inc("i"), IfS(Op("==", V("i"), V("a")), Ret(S("loop")))), Ret(S("big"))),
 		Pr(Call("f", L(0)))))
@@ -135,6 +172,10 @@ func c04Shapes() []Shape {
 	add("len-itoa-concat", Pr(Op("+", ts(1, S("a")), ItoaE{X: ti(2, L(0))})), Pr(Len(ts(3, S("abc")))), Pr(Len(Ints(ti(4, N(1))))))
 	add("nested-control-flow", For3(Def("i", N(0)), Op("<", V("i"), N(2)), Inc("i"),
 		IfElse(tb(1, Op("==", V("i"), L(0))), Blk{Pr(ti(2, V("i")))}, Blk{IfS(tb(3, T()), Pr(ti(4, V("i"))))})))
+	add("expression-statement-operands", Do(Op("+", ti(1, L(0)), ti(2, L(1)))), Do(Op("==", ti(3, L(0)), ti(4, L(1)))), Do(NOT(tb(5, T()))), Do(Op("&&", tb(6, F()), tb(7, T()))),
+		Do(P(Op("*", ti(8, N(2)), ti(9, N(3))))), Do(Len(ts(10, S("abc")))), Do(ItoaE{X: ti(11, N(4))}), Do(Op("+", ts(12, S("a")), ts(13, S("b")))),
+		IfS(tb(14, T()), Do(Op("-", ti(15, N(1)), ti(16, N(1))))),
+		Fn("inner", nil, nil, Do(Op("<", ti(17, N(1)), ti(18, N(2)))), Do(ti(19, N(0)))), Do(Call("inner")), Pr(S("end")))
 	add("panic-argument", IfS(tb(1, Op("<", L(0), L(1))), PanicS{X: ts(2, S("bye"))}), Pr(ti(3, N(0))))
 	add("condition-in-function", Fn("chk", []ParamDecl{Pm("a", TInt)}, []Type{TBool}, IfS(tb(1, Op("<", V("a"), L(0))), Ret(tb(2, T()))), Ret(tb(3, F()))), Pr(Call("chk", L(1))))
 	return sh
@@ -163,6 +204,20 @@ func c03Shapes() []Shape {
 	}})
 	add("copy", Prog(Def("src", Ints(L(0), L(1), L(2))), Def("dst", Ints(N(9))), Def("n", CopyE{Dst: "dst", Src: V("src")}), Pr(V("n"), Len(V("dst")), Idx("dst", N(0)), Idx("dst", N(1)), Idx("dst", N(2))),
 		SSet("src", N(0), L(3)), Pr(Idx("dst", N(0)), Idx("src", N(0)))))
+	add("copy-global-destination-in-function", Prog(Def("dst", Ints(N(9))), Def("other", Ints()),
+		Fn("fill", []ParamDecl{Pm("src", TInts)}, []Type{TInt}, Def("n", CopyE{Dst: "dst", Src: V("src")}), Ret(V("n"))),
+		Fn("fillLocal", []ParamDecl{Pm("src", TInts)}, []Type{TInt}, Def("l", Ints()), Def("n", CopyE{Dst: "l", Src: V("src")}), Ret(Op("+", Op("*", V("n"), N(10)), Len(V("l"))))),
+		Fn("fillParam", []ParamDecl{Pm("d", TInts), Pm("src", TInts)}, []Type{TInt}, Ret(CopyE{Dst: "d", Src: V("src")})),
+		Fn("fillBoth", []ParamDecl{Pm("src", TInts)}, []Type{TBool}, Ret(Op("==", CopyE{Dst: "other", Src: V("src")}, Len(V("src"))))),
+		Pr(Call("fill", Ints(L(0), L(1))), Len(V("dst")), Idx("dst", N(0)), Idx("dst", N(1))),
+		Pr(Call("fillLocal", Ints(L(0), L(1), L(2)))), Pr(Call("fillParam", V("other"), V("dst")), Len(V("other")), Idx("other", N(1))),
+		Pr(Call("fillBoth", Ints(N(1), N(2), N(3))), Len(V("other")), Idx("other", N(2)))))
+	add("nested-range-over-expressions", Prog(
+		Fn("nums", nil, []Type{TInts}, Ret(Ints(N(10), N(20), N(30)))),
+		Fn("word", nil, []Type{TString}, Ret(S("xy"))),
+		ForRange{I: "i", V: "s", X: Strs(S("ab"), S("cde")), Body: []Stmt{ForRange{I: "j", V: "n", X: Call("nums"), Body: []Stmt{Pr(V("i"), V("s"), V("j"), V("n"))}}, Pr(S("outer"), V("i"))}},
+		ForRange{I: "i", V: "ch", X: Call("word"), Body: []Stmt{ForRange{I: "j", V: "v", X: Ints(L(0), L(1)), Body: []Stmt{Pr(V("i"), V("ch"), V("j"), V("v"))}}, Pr(S("inner done"), V("ch"))}},
+		ForRange{I: "a", V: "x", X: Call("nums"), Body: []Stmt{Pr(V("a"), V("x"))}}, ForRange{I: "a", V: "x", X: Ints(N(7)), Body: []Stmt{Pr(V("a"), V("x"))}}))
 	add("copy-empty", Prog(Def("src", Ints()), Def("dst", Ints()), Pr(CopyE{Dst: "dst", Src: V("src")}, Len(V("dst")))))
 	add("copy-strings", Prog(Def("src", Strs(S("a b"), S(""))), Def("dst", Strs()), Pr(CopyE{Dst: "dst", Src: V("src")}), Pr(Idx("dst", N(0)), Len(V("dst")))))
 	sh = append(sh, Shape{Name: "string-ops-symbolic", Prog: func(c *gosym.Ctx) *Program {
